@@ -42,7 +42,8 @@ class YowNoiseLayer(YowLayer):
         self._handshake_worker = None
         self._stream = BlockingQueueSegmentedStream()  # type: BlockingQueueSegmentedStream
         self._read_buffer = bytearray()
-        self._flush_lock = threading.Lock()
+        self._flush_lock = threading.RLock()
+        self._flushing = False
         self._incoming_segments_queue = Queue.Queue()
         self._profile = None
         self._rs = None
@@ -168,10 +169,17 @@ class YowNoiseLayer(YowLayer):
         self._wa_noiseprotocol.send(data)
 
     def _flush_incoming_buffer(self):
-        self._flush_lock.acquire()
-        while self._incoming_segments_queue.qsize():
-            self.toUpper(self._wa_noiseprotocol.receive())
-        self._flush_lock.release()
+        with self._flush_lock:
+            if self._flushing:
+                # re-entered by the same thread: the transport state callback can fire inside
+                # _wa_noiseprotocol.receive() below; the outer loop keeps draining the queue
+                return
+            self._flushing = True
+            try:
+                while self._incoming_segments_queue.qsize():
+                    self.toUpper(self._wa_noiseprotocol.receive())
+            finally:
+                self._flushing = False
 
     def receive(self, data):
         """
